@@ -99,8 +99,10 @@ pub fn exec(line: &str, _model: &mut Model) -> Option<Exec> {
             let mp = d.join("manifest");
             std::fs::write(&mp, &manifest).ok()?;
             let mut args = vec!["encode".to_string(), mp.to_string_lossy().to_string()];
-            let from_stdin = t[2] == "stdin";
-            if from_stdin { args.push("-".into()); } else { let pp = d.join("payload"); std::fs::write(&pp, &payload).ok()?; args.push(pp.to_string_lossy().to_string()); }
+            // "stdin": the documented "-"; "devstdin": the payload FILE is /dev/stdin fed from a pipe (a path whose
+            // metadata says nothing about how much can be read from it)
+            let from_stdin = t[2] == "stdin" || t[2] == "devstdin";
+            if t[2] == "devstdin" { args.push("/dev/stdin".into()); } else if from_stdin { args.push("-".into()); } else { let pp = d.join("payload"); std::fs::write(&pp, &payload).ok()?; args.push(pp.to_string_lossy().to_string()); }
             let hexmode = mode == "x";
             if mode == "x" { args.push("-x".into()); } else if let Some(o) = mode.strip_prefix("o:") { args.push(String::from_utf8(unhex(o)?).ok()?); }
             let r = run_cli(&args, if from_stdin { Some(&payload) } else { None })?;
@@ -295,7 +297,7 @@ pub fn generate(ctx: &mut Ctx, rep: &mut Report, emit: &mut dyn FnMut(&mut Ctx, 
         let m = gen_manifest(&mut rng);
         let payload = if rng.chance(1, 6) { vec![] } else { gen_payload(&mut rng) };
         let mode = match rng.below(9) { 0..=3 => "r".to_string(), 4..=7 => "x".to_string(), _ => format!("o:{}", hex(rng.pick(&["-X", "x", "--hex", "-p"]).as_bytes())) };
-        emit(ctx, rep, format!("cli.encode {} {} {} {}", mode, if rng.chance(1, 2) { "file" } else { "stdin" }, hex(m.as_bytes()), hex(&payload)));
+        emit(ctx, rep, format!("cli.encode {} {} {} {}", mode, match rng.below(5) { 0 | 1 => "file", 2 | 3 => "stdin", _ => "devstdin" }, hex(m.as_bytes()), hex(&payload)));
     }
     // raw output far beyond any buffer in front of stdout (64 KiB and more), with the newline — which a line-buffered
     // writer treats specially — at the start, in the middle, in the last KiB, or absent
@@ -335,6 +337,26 @@ pub fn generate(ctx: &mut Ctx, rep: &mut Report, emit: &mut dyn FnMut(&mut Ctx, 
             emit(ctx, rep, format!("cli.decode {} arg {}", mode, hex(h.as_bytes())));
         } else {
             emit(ctx, rep, format!("cli.decode {} stdin {}", mode, hex(&bytes)));
+        }
+    }
+    // raw bundles on stdin in the other framing the library accepts (definite-length outer array: no 0xff at the end),
+    // whose last byte is therefore payload data — ASCII white space, a hex digit, a quote
+    for _ in 0..ctx.n(40, 2_000) {
+        let mut b = gen_bundle(&mut rng, &Opts { wf: true, max_blocks: 3 });
+        b.set_crc(0);
+        let mut d = gen_payload(&mut rng);
+        d.extend_from_slice(*rng.pick(&[&b"\n"[..], b" ", b"\t", b"\r\n", b"\x0b", b"\x0c", b"a", b"0", b"  \n", b"\""]));
+        b.set_payload(d);
+        // payload block last (the builders sort it there)
+        b.sort_canonicals();
+        let bytes = b.to_cbor();
+        if let Some(blocks) = crate::cborx::bundle_blocks(&bytes) {
+            if blocks.len() < 24 {
+                let mut v = vec![0x80 | blocks.len() as u8];
+                v.extend_from_slice(&bytes[1..bytes.len() - 1]);
+                emit(ctx, rep, format!("cli.decode p stdin {}", hex(&v)));
+                if v.len() < 20_000 { emit(ctx, rep, format!("cli.decode p arg {}", hex(hex(&v).as_bytes()))); }
+            }
         }
     }
     for _ in 0..ctx.n(150, 5_000) {
